@@ -82,3 +82,21 @@ func errStr(err error) string {
 	}
 	return s
 }
+
+// sharedCapacity reports two byte-slice fields reachable from v (pass a pointer) whose memory, spare capacity
+// included, overlaps: a non-mutating append to one of them by the holder would overwrite the other.
+func sharedCapacity(v interface{}) (engine.Region, engine.Region, bool) {
+	rs := engine.Regions(v)
+	for i := 0; i < len(rs); i++ {
+		for j := i + 1; j < len(rs); j++ {
+			a, b := rs[i], rs[j]
+			if a.Cap == 0 || b.Cap == 0 || (a.Base == b.Base && a.Path == b.Path) {
+				continue
+			}
+			if a.Base < b.Base+uintptr(b.Cap) && b.Base < a.Base+uintptr(a.Cap) {
+				return a, b, true
+			}
+		}
+	}
+	return engine.Region{}, engine.Region{}, false
+}
